@@ -117,6 +117,7 @@ type runner struct {
 	accIdx int          // how many of `order` have been returned by Accept
 	hist   []string
 	nextIP int
+	dead   bool              // a packetInput call never returned: stop driving this listener
 	forged map[uint32][]byte // conv -> payload of a forged sn=0 PUSH (a conversation the forger started)
 }
 
@@ -204,6 +205,91 @@ func (x *runner) analyse(raw []byte) (aux string, passes bool) {
 	}
 }
 
+// plainOf: the bytes after the gate (nil, false if the integrity check fails)
+func (x *runner) plainOf(raw []byte) ([]byte, bool) {
+	switch {
+	case x.cfg.kind == "nil":
+		return raw, true
+	case x.cfg.kind == "block":
+		if len(raw) < 20 {
+			return nil, false
+		}
+		d := append([]byte(nil), raw...)
+		x.dec.Decrypt(d, d)
+		if crc32.ChecksumIEEE(d[20:]) != binary.LittleEndian.Uint32(d[16:]) {
+			return nil, false
+		}
+		return d[20:], true
+	default:
+		ns, ov := x.cfg.gcm.NonceSize(), x.cfg.gcm.Overhead()
+		if len(raw) < ns+ov {
+			return nil, false
+		}
+		pt, err := x.cfg.gcm.Open(nil, raw[:ns], raw[ns:], nil)
+		return pt, err == nil
+	}
+}
+
+// expected is the harness's own reading of the property for one datagram (written from the
+// property text and the frame layout, independently of the Lean model): what the listener has
+// to do with a datagram from address a given the table before it.
+func (x *runner) expected(a string, raw []byte, tb map[string]tableEntry, room bool) string {
+	p, ok := x.plainOf(raw)
+	if !ok {
+		if x.cfg.kind == "block" && len(raw) >= 20 || x.cfg.kind != "block" && len(raw) >= x.cfg.gcm.NonceSize()+x.cfg.gcm.Overhead() {
+			return "drop csum"
+		}
+		return "drop silent"
+	}
+	if len(p) < 12 {
+		return "drop silent"
+	}
+	hasConv, conv, sn := false, uint32(0), uint32(0)
+	switch binary.LittleEndian.Uint16(p[4:]) {
+	case 0xf1:
+		if len(p) >= 8+24 {
+			hasConv, conv, sn = true, binary.LittleEndian.Uint32(p[8:]), binary.LittleEndian.Uint32(p[8+12:])
+		}
+	case 0xf2:
+	case 0xf3:
+		hasConv, conv = true, binary.LittleEndian.Uint32(p[8:])
+	default:
+		if len(p) < 24 {
+			return "drop silent"
+		}
+		hasConv, conv, sn = true, binary.LittleEndian.Uint32(p), binary.LittleEndian.Uint32(p[12:])
+	}
+	if e, ok := tb[a]; ok {
+		switch {
+		case !hasConv || conv == e.conv:
+			return fmt.Sprintf("route %s %d", a, e.idx)
+		case sn != 0:
+			return "drop silent" // another conversation, not a reset: ignored
+		case !room:
+			return fmt.Sprintf("closed %s %d", a, e.idx)
+		default:
+			return fmt.Sprintf("create %s %d * closed=%d", a, conv, e.idx)
+		}
+	}
+	if !hasConv || !room {
+		return "drop silent"
+	}
+	return fmt.Sprintf("create %s %d * closed=-", a, conv)
+}
+
+func matchDecision(want, got string) bool {
+	w, g := strings.Fields(want), strings.Fields(got)
+	if len(w) != len(g) {
+		return false
+	}
+	for i := range w {
+		if w[i] != "*" && w[i] != g[i] {
+			return false
+		}
+	}
+	return true
+}
+
 // ---- listener observation
 
 type tableEntry struct {
@@ -270,7 +356,21 @@ func (x *runner) lin(class string, addr net.Addr, raw []byte) string {
 	tb, tbs := x.table()
 	before := x.snapAll()
 	c0 := memnet.ReadSnmp()
-	pmsg := hx.Try(func() { kcp.VerifListenerPacketInput(x.l, raw, addr) })
+	if x.dead {
+		return "dead"
+	}
+	done := make(chan string, 1)
+	go func() { done <- hx.Try(func() { kcp.VerifListenerPacketInput(x.l, raw, addr) }) }()
+	var pmsg string
+	select {
+	case pmsg = <-done:
+	case <-time.After(5 * time.Second):
+		// the monitor goroutine of a real listener would be stuck here for good: every peer stalls
+		x.dead = true
+		x.op(op, "stuck")
+		x.viol("listener-stuck", fmt.Sprintf("%s: Listener.packetInput did not return for a datagram (%s) from %s (accept queue %s)", x.cfg.name, class, a, tbs))
+		return "stuck"
+	}
 	d := memnet.ReadSnmp().Sub(c0)
 	ta, tas := x.table()
 	after := x.snapAll()
@@ -317,6 +417,9 @@ func (x *runner) lin(class string, addr net.Addr, raw []byte) string {
 	}
 	x.op(op, dec+" "+tas)
 	x.o.Count("decision:" + strings.Fields(dec)[0])
+	if want := x.expected(a, raw, tb, !strings.HasSuffix(tbs, fmt.Sprintf("q=%d", 128))); pmsg == "" && !matchDecision(want, dec) {
+		x.viol("listener-decision", fmt.Sprintf("%s: datagram (%s) from %s with table %q: the listener did %q, the property asks for %q", x.cfg.name, class, a, tbs, dec, want))
+	}
 
 	// --- frame oracle: sessions other than the one mapped at `a` (before or after) are untouched
 	var own = -1
@@ -498,6 +601,9 @@ func (x *runner) deliverNext(p *peer) {
 }
 
 func (x *runner) accept() {
+	if x.dead {
+		return
+	}
 	_, s := x.table()
 	var q int
 	fmt.Sscanf(s[strings.LastIndex(s, "q=")+2:], "%d", &q)
@@ -728,6 +834,10 @@ func (x *runner) startCase(name string, c config) {
 }
 
 func (x *runner) endCase() {
+	if x.dead {
+		x.dead = false
+		return
+	}
 	// drain the accept queue: exactly the created sessions, once each, in order
 	for {
 		_, s := x.table()
@@ -816,8 +926,13 @@ func (x *runner) caseMixed(c config, k, steps int) {
 				sort.Ints(idxs)
 				idx := idxs[x.g.Intn(len(idxs))]
 				x.srvs[idx].s.Close()
-				_, s := x.table()
+				tbl, s := x.table()
 				x.op(fmt.Sprintf("close %d", idx), "ok "+s)
+				for _, e := range tbl {
+					if e.idx == idx {
+						x.viol("listener-close-still-mapped", fmt.Sprintf("%s: session #%d is still mapped at %s after Close", x.cfg.name, idx, e.addr))
+					}
+				}
 				x.o.Count("user-close")
 				// the peer at that address starts over with a new conversation
 				for _, p := range x.peers {
